@@ -86,6 +86,10 @@ def judge_fit(ctx, fam, X, where, probe_prefix='fit'):
     """Fit the real class on X and judge the outcome.  Returns the fitted model or None."""
     U, V = X[:, 0], X[:, 1]
     model = biv.cls(fam)()
+    if int(1e6 * abs(float(U[0]))) % 2:
+        # an instance with a past: fitted on other data (and possibly refused) before
+        prev = samplers.gaussian(0.55 if fam != 'frank' else -0.4, 60, rng_for(len(X), fam))
+        ctx.call(model.fit, prev)
     ok, exc = ctx.call(model.fit, X.copy())
     tb = rank.tau_b(U, V)
     outside = (X < 0).any() or (X > 1).any()
